@@ -46,6 +46,13 @@ def regex_crosscheck(seed):
     return {'cases': n, 'ok': not bad, 'disagreements': bad[:5]}
 
 
+def _known_findings():
+    try:
+        return {f['id'] for f in json.load(open(os.path.join(ROOT, 'known_findings.json'))).get('findings', []) if f.get('status') == 'known'}
+    except Exception:      # noqa
+        return set()
+
+
 def selftest(prop, jobs):
     from pyvc.run import run_jobs
     out = {}
@@ -66,7 +73,9 @@ def selftest(prop, jobs):
                 res = run_jobs(jobs)
             finally:
                 os.environ.pop('PYVC_REPO', None)
-            refuted = sum(1 for o in res for r in o['results'] if r['verdict'] == 'refuted' and not r.get('finding'))
+            # a witness obligation of a KNOWN finding does not count (it is refuted on the unchanged tree too); the witness of a FIXED finding does
+            known = _known_findings()
+            refuted = sum(1 for o in res for r in o['results'] if r['verdict'] == 'refuted' and r.get('finding') not in known)
             undec = [o['undecided'] for o in res if o['undecided']]
             open_ = [o for o in res if o['undecided'] or any(r['verdict'] == 'undecided' and not r.get('exploratory') and not r.get('finding') for r in o['results'])]
             caught = refuted > 0
